@@ -19,7 +19,26 @@ import (
 
 // ---------- reference model: a plain byte queue ----------
 
-type model struct{ q []byte }
+type model struct {
+	q     []byte
+	sides *[]side // containers handed to / returned by operations so far; they must stay independent of the container under test
+}
+
+// side is a second container that met the container under test: an argument of
+// AppendContainer*, or a container returned by PeekContainer, GetAsContainer or
+// GetNextBlockAsContainer. Its content must not change through later operations
+// on the container under test, and vice versa.
+type side struct {
+	ct   *container.Container
+	want []byte
+	from string
+}
+
+func (m *model) addSide(ct *container.Container, want []byte, from string) {
+	if m.sides != nil && ct != nil {
+		*m.sides = append(*m.sides, side{ct, clone(want), from})
+	}
+}
 
 func refPack(n uint64) []byte {
 	var out []byte
@@ -197,10 +216,23 @@ func buildOps() []op {
 		func(m *model) res { m.q = append(refPack(uint64(len(m.q))), m.q...); return res{ok: 1} }})
 	for _, a := range contArgs {
 		a := a
-		add(op{"AppendContainer(" + a.name + ")", func(c *container.Container, _ *model) res { c.AppendContainer(a.build()); return res{ok: 1} },
+		add(op{"AppendContainer(" + a.name + ")", func(c *container.Container, m *model) res {
+			arg := a.build()
+			c.AppendContainer(arg)
+			m.addSide(arg, a.bytes, "argument of AppendContainer")
+			return res{ok: 1}
+		},
 			func(m *model) res { m.q = append(m.q, a.bytes...); return res{ok: 1} }})
-		add(op{"AppendContainerAsBlock(" + a.name + ")", func(c *container.Container, _ *model) res { c.AppendContainerAsBlock(a.build()); return res{ok: 1} },
-			func(m *model) res { m.q = append(append(m.q, refPack(uint64(len(a.bytes)))...), a.bytes...); return res{ok: 1} }})
+		add(op{"AppendContainerAsBlock(" + a.name + ")", func(c *container.Container, m *model) res {
+			arg := a.build()
+			c.AppendContainerAsBlock(arg)
+			m.addSide(arg, a.bytes, "argument of AppendContainerAsBlock")
+			return res{ok: 1}
+		},
+			func(m *model) res {
+				m.q = append(append(m.q, refPack(uint64(len(a.bytes)))...), a.bytes...)
+				return res{ok: 1}
+			}})
 	}
 	for _, d := range dataArgs(0x30) {
 		d := d
@@ -218,7 +250,9 @@ func buildOps() []op {
 			if nc == nil {
 				return res{ok: 0}
 			}
-			return res{ok: 1, data: clone(nc.CompileData()), has: "d"}
+			d := clone(container.VerifCarbonCopy(nc).CompileData())
+			m.addSide(nc, d, "result of PeekContainer")
+			return res{ok: 1, data: d, has: "d"}
 		}, func(m *model) res {
 			n := la.f(m)
 			if n < 0 || n > len(m.q) {
@@ -258,7 +292,9 @@ func buildOps() []op {
 			if err != nil || nc == nil {
 				return res{ok: 0}
 			}
-			return res{ok: 1, data: clone(nc.CompileData()), has: "d"}
+			d := clone(container.VerifCarbonCopy(nc).CompileData())
+			m.addSide(nc, d, "result of GetAsContainer")
+			return res{ok: 1, data: d, has: "d"}
 		}, func(m *model) res {
 			n := la.f(m)
 			if n < 0 || n > len(m.q) {
@@ -341,12 +377,14 @@ func buildOps() []op {
 		}
 		return res{ok: 1, data: clone(b), has: "d"}
 	}, blockRef(false)})
-	add(op{"GetNextBlockAsContainer", func(c *container.Container, _ *model) res {
+	add(op{"GetNextBlockAsContainer", func(c *container.Container, m *model) res {
 		nc, err := c.GetNextBlockAsContainer()
 		if err != nil || nc == nil {
 			return res{ok: 0}
 		}
-		return res{ok: 1, data: clone(nc.CompileData()), has: "d"}
+		d := clone(container.VerifCarbonCopy(nc).CompileData())
+		m.addSide(nc, d, "result of GetNextBlockAsContainer")
+		return res{ok: 1, data: d, has: "d"}
 	}, blockRef(true)})
 	return ops
 }
@@ -394,6 +432,7 @@ type witness struct {
 func runHistory(c *vlib.Ctx, ops []op, sd seed, hist []int, checkAll bool) (key string, outcome string, bad bool) {
 	ct := sd.build()
 	m := &model{q: clone(sd.bytes)}
+	var sides []side
 	names := func(upto int) []string {
 		out := make([]string, 0, upto+1)
 		for _, i := range hist[:upto+1] {
@@ -405,7 +444,7 @@ func runHistory(c *vlib.Ctx, ops []op, sd seed, hist []int, checkAll bool) (key 
 		o := ops[oi]
 		pre := clone(m.q)
 		var got res
-		p, stack := vlib.Catch(func() { got = o.impl(ct, &model{q: pre}) })
+		p, stack := vlib.Catch(func() { got = o.impl(ct, &model{q: pre, sides: &sides}) })
 		if p != nil {
 			c.Violate("never-panics", opKind(o.name), vlib.PanicSite(stack),
 				fmt.Sprintf("seed %s history %v: panic %v", sd.name, names(step), p), witness{sd.name, names(step)})
@@ -446,6 +485,41 @@ func runHistory(c *vlib.Ctx, ops []op, sd seed, hist []int, checkAll bool) (key 
 		c.Violate("content-equals-byte-queue", "probe-after-"+last, "content-mismatch",
 			fmt.Sprintf("seed %s history %v: container holds %x (Length %d, HoldsData %v), byte queue %x", sd.name, names(len(hist)-1), content, length, holds, m.q), witness{sd.name, names(len(hist) - 1)})
 		return "", "mismatch", true
+	}
+	// independence of the containers that met the container under test: their content is what it was when they
+	// were handed over / returned, and changing them now does not change the container under test
+	if len(sides) > 0 {
+		var sideBad, back string
+		p, stack = vlib.Catch(func() {
+			for _, sdc := range sides {
+				if got := container.VerifCarbonCopy(sdc.ct).CompileData(); !bytes.Equal(got, sdc.want) {
+					sideBad = fmt.Sprintf("%s holds %x, expected %x", sdc.from, got, sdc.want)
+					return
+				}
+			}
+			for _, sdc := range sides {
+				_ = sdc.ct.GetMax(1)
+				sdc.ct.Prepend([]byte{0xef})
+				sdc.ct.Append([]byte{0xee})
+				if got := container.VerifCarbonCopy(ct).CompileData(); !bytes.Equal(got, m.q) || ct.Length() != len(m.q) {
+					back = fmt.Sprintf("after GetMax(1), Prepend, Append on the %s the container under test holds %x (Length %d), byte queue %x", sdc.from, got, ct.Length(), m.q)
+					return
+				}
+			}
+		})
+		switch {
+		case p != nil:
+			c.Violate("never-panics", "side-probe-after-"+last, vlib.PanicSite(stack), fmt.Sprintf("seed %s history %v: probe panic %v", sd.name, names(len(hist)-1), p), witness{sd.name, names(len(hist) - 1)})
+			return "", "panic", true
+		case sideBad != "":
+			c.Violate("containers-are-independent", "probe-after-"+last, "argument-or-result-changed",
+				fmt.Sprintf("seed %s history %v: %s", sd.name, names(len(hist)-1), sideBad), witness{sd.name, names(len(hist) - 1)})
+			return "", "mismatch", true
+		case back != "":
+			c.Violate("containers-are-independent", "probe-after-"+last, "changed-through-argument-or-result",
+				fmt.Sprintf("seed %s history %v: %s", sd.name, names(len(hist)-1), back), witness{sd.name, names(len(hist) - 1)})
+			return "", "mismatch", true
+		}
 	}
 	lens, off := container.VerifState(ct)
 	var sb strings.Builder
@@ -511,7 +585,7 @@ func main() {
 			byName[o.name] = i
 		}
 		c.Rule(fmt.Sprintf("BFS over operation histories on the real container from %d initial containers, alphabet of %d operations (arguments: data {nil,empty,1B,3B}, requested lengths {-1,0,1,2,len,len+1,2^62}, numbers {0,1,3,127,128,255,256,2^62,2^63,2^64-1}, 4 argument containers); "+
-			"each history is replayed on a fresh container and on a []byte queue, every result compared; states de-duplicated on (offset, compartment length vector, content); "+
+			"each history is replayed on a fresh container and on a []byte queue, every result compared; containers handed to AppendContainer* or returned by PeekContainer/GetAsContainer/GetNextBlockAsContainer are kept and must stay independent of the container under test in both directions; states de-duplicated on (offset, compartment length vector, content); "+
 			"non-trivial = distinct reached states whose container holds more than one compartment or a non-zero offset", len(seeds), len(ops)))
 		c.Assume("a negative requested length may be refused or yield nothing (nothing consumed); GetNextBlock is defined compositionally as GetNextN64 followed by Get(length), so a failed block read leaves the length prefix consumed")
 		if c.Replay != "" {
